@@ -37,6 +37,8 @@ def run(run):
              ['[', ('digit',), ('digit',), ']'], ['[', '-', D, D, D, D, D, D, D, D, D, D, ']'], ['`', None, None, '`'], ['"', None, None, '"']]
     if not quick: specs += [[None, None, None], ["'", None, None, None], ['`', None, None, None, '`']]
     LJ.run_sharded(run, PROG, specs, 'mirsym: Lexer::tokenize on symbolic code points (panics, step budget)', keyprefix='c05x')
+    import time as _t
+    run.deadline = max(run.deadline, _t.time() + (90 if quick else 1200)); dl = run.deadline
     N = 3 if quick else 4
     jobs = [('parse', k, n, dl) for n in range(N, 0, -1) for k in GR.TOKENS]
     jobs += [('interp', 'index', 3, dl)] + [('interp', ('slice', hs, ht), 3, dl) for hs in (0, 1) for ht in (0, 1)]
